@@ -103,10 +103,14 @@ def build_world(w, fmt, root, times=CLI_TIMES):
         for n in ('SNMPv2-SMI', 'SNMPv2-TC', 'SNMPv2-CONF'):
             _put(os.path.join(src, n + '.txt'), mibs.BASE[n], T0)
     for n, st in (('AA-MIB', w['srcA']), ('BB-MIB', w['srcB'])):
+        where = src
+        if n == 'BB-MIB' and w.get('sub') and st != 'missing':
+            where = os.path.join(src, 'vendor', 'more')       # below the top directory of the (recursive) source
+            os.makedirs(where)
         if st == 'ok':
-            _put(os.path.join(src, n + '.txt'), module_text(n, w), T0)
+            _put(os.path.join(where, n + '.txt'), module_text(n, w), T0)
         elif st == 'broken':
-            _put(os.path.join(src, n + '.txt'), module_text(n, w).replace('END\n', '::= ::= END\n'), T0)
+            _put(os.path.join(where, n + '.txt'), module_text(n, w).replace('END\n', '::= ::= END\n'), T0)
     if w['alias']:
         _put(os.path.join(src, 'afile.txt'), module_text('AA-MIB', w), T0)
     if w['src2A'] == 'ok':
@@ -206,7 +210,7 @@ def _dump_job(job):
 
 
 def brief_world(w, fmt):
-    flags = (['dst-is-a-file'] if w.get('dstKind') == 'file' else []) + [k for k in ('noDeps', 'rebuild', 'ignoreErrors', 'noWrites', 'dryRun', 'buildIndex', 'quiet', 'alias') if w[k]]
+    flags = (['dst-is-a-file'] if w.get('dstKind') == 'file' else []) + (['B-in-subdir'] if w.get('sub') else []) + [k for k in ('noDeps', 'rebuild', 'ignoreErrors', 'noWrites', 'dryRun', 'buildIndex', 'quiet', 'alias') if w[k]]
     return '%s req=%s%s src=%s+%s/%s imp=%s%s dst=%s/%s bor=%d%d base=%d texts=%s usage=%s %s' % (
         fmt, ','.join(w['req']), '(paths)' if w.get('reqForm') == 'path' else '', w['srcA'], w['src2A'], w['srcB'], w['imp'], '~' if w.get('spell') == 'variant' else '', w['dstA'], w['dstB'], w['borA'], w['borB'], w['base'],
         w['texts'], w['usage'], '+'.join(flags))
